@@ -14,9 +14,9 @@ LEVEL_TEXT = ('Lean 4 theorems about an executable model of Spectrum._ufunc/_int
               'the smaller minimum and ends at the larger maximum; add/multiply (any commutative op) are commutative incl. the '
               'left/right sampling swap; scalar/vector operands act element-wise on the unchanged grid; the right operand is used '
               'in the left operand\'s unit. Model tied to the code by differential testing at ℚ.')
-LEVEL_NOTE = ('the scalar grid arithmetic of _interp_common (range, guard, number of intervals, linspace arguments) is regenerated as Gen/InterpGrid.lean and the grid theorems are about it. unit invariance is proved for unitless spectra (`unit_invariance_unitless`: re-expressing both operands and a numeric sampling in any unit rescales the result\'s grid and keeps its values, every operator; `ufunc_scale` is the k>0 core) and the result is a valid spectrum (`ufunc_result_valid`); for density spectra (scope in ASSUMPTIONS) it is '
-              'for the hand-over step (`unit_handover_partial`); the full statement, "operands unchanged" and "result is a new object" '
-              'are evaluated on the implementation by the oracle in every run (all 4 units, snapshots). Trusted: interp1d(linear), '
+LEVEL_NOTE = ('the scalar grid arithmetic of _interp_common (range, guard, number of intervals, linspace arguments) is regenerated as Gen/InterpGrid.lean and the grid theorems are about it. unit invariance is proved for unitless spectra (`unit_invariance_unitless`: re-expressing both operands and a numeric sampling in any unit rescales the result\'s grid and keeps its values, every operator; `ufunc_scale` is the k>0 core) and the result is a valid spectrum (`ufunc_result_valid`); for density spectra (scope in ASSUMPTIONS) only the '
+              'hand-over step is proved (`unit_handover_partial`) and the clause, like "operands unchanged" and "result is a new object", '
+              'is evaluated on the implementation by the oracle in every run (all 4 units, snapshots). Trusted: interp1d(linear), '
               'np.linspace, np.clip.')
 TECHNIQUE = 'Lean 4 proof (unfolding + list lemmas) about a hand model + differential correspondence at ℚ'
 GEN = ['Units', 'InterpGrid']
